@@ -212,7 +212,7 @@ def rule_dup(ctx):
             def visit_Name(self, nd):
                 if isinstance(nd.ctx, ast.Load) and nd.id not in no_expand:
                     d = latest_def(nd.id, line)
-                    if d is not None and nd.id not in A.names_in(d.value):
+                    if d is not None:      # a self-referential update (`s = s | more`) expands through the earlier definition
                         used.append(d)
                         return expand_at(A.clone(d.value), d.lineno, used, depth - 1)
                 return nd
